@@ -74,8 +74,24 @@ where
     match read_header(reader, &mut container.header)? {
         0 => Ok(0),
         len => {
-            container.src.resize(len, 0);
-            reader.read_exact(&mut container.src)?;
+            // The length is not validated, i.e., the buffer grows as data is read.
+            let limit =
+                u64::try_from(len).map_err(|e| io::Error::new(io::ErrorKind::InvalidData, e))?;
+
+            container.src.clear();
+
+            if reader
+                .by_ref()
+                .take(limit)
+                .read_to_end(&mut container.src)?
+                < len
+            {
+                return Err(io::Error::new(
+                    io::ErrorKind::UnexpectedEof,
+                    "failed to fill whole buffer",
+                ));
+            }
+
             Ok(len)
         }
     }
